@@ -4,6 +4,7 @@ import (
 	"context"
 
 	"capnproto.org/go/capnp/v3"
+	"capnproto.org/go/capnp/v3/internal/verifhook"
 	rpccp "capnproto.org/go/capnp/v3/std/capnp/rpc"
 )
 
@@ -84,6 +85,7 @@ type importClient struct {
 
 func (ic *importClient) Send(ctx context.Context, s capnp.Send) (*capnp.Answer, capnp.ReleaseFunc) {
 	// Acquire sender lock.
+	verifhook.Yield(720)
 	ic.c.mu.Lock()
 	if !ic.c.startTask() {
 		ic.c.mu.Unlock()
@@ -101,6 +103,7 @@ func (ic *importClient) Send(ctx context.Context, s capnp.Send) (*capnp.Answer, 
 	}
 	q := ic.c.newQuestion(s.Method)
 	ic.c.mu.Unlock()
+	verifhook.Yield(721)
 
 	// Create call message.
 	msg, send, release, err := ic.c.transport.NewMessage(ctx)
@@ -115,6 +118,7 @@ func (ic *importClient) Send(ctx context.Context, s capnp.Send) (*capnp.Answer, 
 	ic.c.mu.Lock()
 	ic.c.unlockSender() // Can't be holding either lock while calling PlaceArgs.
 	ic.c.mu.Unlock()
+	verifhook.Yield(722)
 	err = ic.c.newImportCallMessage(msg, ic.id, q.id, s)
 	if err != nil {
 		ic.c.mu.Lock()
@@ -130,11 +134,13 @@ func (ic *importClient) Send(ctx context.Context, s capnp.Send) (*capnp.Answer, 
 	}
 
 	// Send call.
+	verifhook.Yield(723)
 	ic.c.mu.Lock()
 	ic.c.lockSender()
 	ic.c.mu.Unlock()
 	err = send()
 	release()
+	verifhook.Yield(724)
 
 	ic.c.mu.Lock()
 	ic.c.unlockSender()
@@ -199,6 +205,7 @@ func (c *Conn) newImportCallMessage(msg rpccp.Message, imp importID, qid questio
 		return errorf("place arguments: %v", err)
 	}
 	clients, states := extractCapTable(m)
+	verifhook.Yield(725)
 	c.mu.Lock()
 	// TODO(soon): save param refs
 	_, err = c.fillPayloadCapTable(payload, clients, states)
@@ -255,6 +262,7 @@ func (ic *importClient) Brand() capnp.Brand {
 }
 
 func (ic *importClient) Shutdown() {
+	verifhook.Yield(730)
 	ic.c.mu.Lock()
 	if !ic.c.startTask() {
 		ic.c.mu.Unlock()
